@@ -235,3 +235,30 @@ def try_op(fn):
         return fn(), None, None
     except Exception as exc:      # noqa: the class is what the oracles look at
         return None, type(exc).__name__, exc
+
+
+class Keeper(object):
+    """Holds the objects reads returned together with their normal form at return time; `mutated()`
+    re-normalises them later: a result that changed after it was handed out means some later read
+    wrote into memory the caller already owns (aliased buffers, shared caches)."""
+    def __init__(self, limit=400):
+        self.items = []
+        self.limit = limit
+
+    def keep(self, label, obj, normal=None):
+        if len(self.items) >= self.limit or obj is None:
+            return
+        import numpy as np
+        if isinstance(obj, (np.ndarray, dict, list)):
+            self.items.append((label, obj, normal if normal is not None else norm(obj)))
+
+    def mutated(self):
+        out = []
+        for label, obj, before in self.items:
+            try:
+                after = norm(obj)
+            except Exception as exc:
+                after = ('exc', type(exc).__name__)
+            if after != before:
+                out.append((label, before, after))
+        return out
